@@ -216,6 +216,21 @@ func (e *bndEngine) goalsFor(p *prover, ob bndOb) []bndGoal {
 		if x.Cap != nil && x.Cap != x.Len {
 			add(p.lin(x.Cap).sub(p.lin(x.Len)), "cap >= len")
 		}
+	case ssa.CallInstruction:
+		if ob.Kind == "libpanic" {
+			a := x.Common().Args
+			switch {
+			case strings.HasPrefix(ob.Expr, "nonempty:"):
+				add(p.lenOf(a[0]).add(linConst(-1)), "argument is not empty")
+			case strings.HasPrefix(ob.Expr, "count>=0:"):
+				add(p.lin(a[1]), "count >= 0")
+			case strings.HasPrefix(ob.Expr, "range:"):
+				i, j := p.lin(a[1]), p.lin(a[2])
+				add(i, "i >= 0")
+				add(j.sub(i), "i <= j")
+				add(p.lenOf(a[0]).sub(j), "j <= len")
+			}
+		}
 	}
 	return goals
 }
